@@ -5,7 +5,7 @@ goit's output.  They never consult the model.  Each returns a list of
 import hashlib
 import re
 
-from core import (decode_index, fsck, parse_cat_tree, parse_log, parse_ls_files, parse_reflog, parse_sign,
+from core import (decode_index, render_log, fsck, parse_cat_tree, parse_log, parse_ls_files, parse_reflog, parse_sign,
                   parse_status, parse_tree)
 from hist import parse_cfg_file
 
@@ -817,6 +817,45 @@ def o_c12(recs):
                 bad.append((i, "%s offset %d, process offset %d" % (who, sg["off"], r.off)))
             if sg["name"] != name or sg["email"] != email:
                 bad.append((i, "%s identity differs" % who))
+        msg = st.argv[2] if len(st.argv) == 3 and st.argv[1] == "-m" else None
+        if msg is not None:
+            msg = msg if isinstance(msg, bytes) else msg.encode()
+            if b"\r" not in msg and c["message"] != msg + b"\n":
+                bad.append((i, "stored message %r, given %r" % (c["message"][:80], msg[:80])))
+    return bad + o_log_entries(recs, "C12")
+
+
+def log_expected(b, hex_ids):
+    """what `log` must print for these commits, from an independent reading of the stored objects
+    (None when an author line is outside the Git form or the instant outside the calendar)"""
+    ents = []
+    for h in hex_ids:
+        c = b.commit(bytes.fromhex(h.decode()))
+        sg = parse_sign(c["author"]) if c["author"] is not None else None
+        if sg is None or b"\r" in c["message"]:
+            return None
+        msg = c["message"][:-1] if c["message"].endswith(b"\n") else c["message"]
+        ents.append((h, sg["name"], sg["email"], sg["time"], sg["off"], msg))
+    return render_log(ents)
+
+
+def o_log_entries(recs, prop):
+    """every entry `log` prints carries the name, e-mail, instant, UTC offset and message its object holds"""
+    bad = []
+    for i, r in enumerate(recs):
+        st = r.step
+        if not r.before.inited or st.kind != "cmd" or st.name != "log" or r.res.cls != "ok":
+            continue
+        try:
+            want = log_expected(r.before, parse_log(r.res.out))
+        except Exception:
+            continue
+        if want is not None and want != r.res.out:
+            k = 0
+            while k < min(len(want), len(r.res.out)) and want[k] == r.res.out[k]:
+                k += 1
+            bad.append((i, "log shows %r where the stored commit says %r" %
+                        (r.res.out[max(0, k - 50):k + 40], want[max(0, k - 50):k + 40])))
     return bad
 
 
@@ -884,7 +923,7 @@ def o_c14(recs):
         if got != want:
             bad.append((i, "log -n %d listed %d commits %r, expected %d %r" %
                         (k, len(got), got[:2], len(want), want[:2])))
-    return bad
+    return bad + o_log_entries(recs, "C14")
 
 
 # ---------------------------------------------------------------- C17
